@@ -105,3 +105,6 @@ Definition pipe_sweep_quick : list (string * nat * list nat) :=
   sweep_fork false ++ sweep_split false ++ sweep_splitjoin false ++ sweep_ctor.
 Definition pipe_sweep_all : list (string * nat * list nat) :=
   sweep_fork true ++ sweep_split true ++ sweep_splitjoin true.
+(* the numbers of initial values for which the constructor's capacity is SMALLER than N: it blocks on its own AddValue *)
+Definition sweep_ctor_blocks : list (nat * option (list nat)) :=
+  filter (fun x => match snd x with Some [c] => c <? fst x | _ => true end) sweep_ctor_sizes.
